@@ -857,6 +857,17 @@ def cmp_guard_edges(body, op, lhs_pred, rhs_pred, symmetric=True):
         if (lhs_pred(sa) and rhs_pred(sb)) or (symmetric and lhs_pred(sb) and rhs_pred(sa)):
             te, fe = bool_local_edges(body, dest)
             res.append((bb, te, fe))
+    # `lhs op rhs` written the other way round (`rhs op' lhs`) is the same test with the same truth value
+    mop = {'Lt': 'Gt', 'Gt': 'Lt', 'Le': 'Ge', 'Ge': 'Le', 'Eq': 'Eq', 'Ne': 'Ne'}.get(op)
+    if mop and not (symmetric and mop == op):
+        seen = {r[0] for r in res}
+        for (bb, j, o, a, b, dest) in compare_sites(body, ops=(mop,)):
+            if bb in seen and mop == op:
+                continue
+            sa, sb = sources(body, a), sources(body, b)
+            if lhs_pred(sb) and rhs_pred(sa) and not (mop == op and lhs_pred(sa) and rhs_pred(sb)):
+                te, fe = bool_local_edges(body, dest)
+                res.append((bb, te, fe))
     return res
 
 
